@@ -199,3 +199,242 @@ Proof.
 Qed.
 
 End Collect.
+
+(* ------------------------------------------------------------------ *)
+Section Block.
+Context {F : Type} (K : Fops F) (Kf : is_field K).
+Add Field KFrb2 : Kf.
+Local Open Scope F_scope.
+Notation "0" := (f0 K) : F_scope.
+Notation "1" := (f1 K) : F_scope.
+Infix "+" := (fadd K) : F_scope.
+Infix "*" := (fmul K) : F_scope.
+Infix "-" := (fsub K) : F_scope.
+Infix "/" := (fdiv K) : F_scope.
+Notation fsum := (FNum.fsum K).
+
+Hypothesis Hexp : forall x y, fexp K (x + y) = fexp K x * fexp K y.
+
+Lemma fsum_map_scale {A} c (g : A -> F) (L : list A) :
+  c * fsum (map g L) = fsum (map (fun i => c * g i) L).
+Proof. induction L as [|a L IH]; cbn [map FNum.fsum fold_right]; [ring|].
+  fold (fsum (map g L)) (fsum (map (fun i => c * g i) L)). rewrite <- IH. ring. Qed.
+
+(* GENERAL ROTATIONS, overlap of two primitives, matrix form: the representation matrices on both indices *)
+Theorem overlap_prim_rotation_matrix R la lb sa sb ja jb alpha beta :
+  orthogonal K R -> psum K alpha beta <> 0 ->
+  In ja (default_comps la) -> In jb (default_comps lb) ->
+  fsum (map (fun ia => fsum (map (fun ib =>
+      rep_mat K R ia ja * rep_mat K R ib jb
+      * ovl_prim K (rot_shell K R sa) (rot_shell K R sb) ia ib alpha beta)
+    (default_comps lb))) (default_comps la))
+  = ovl_prim K sa sb ja jb alpha beta.
+Proof.
+  intros HO Hp Hja Hjb.
+  rewrite <- (overlap_prim_rotation_covariant K Kf Hexp R sa sb ja jb alpha beta HO Hp).
+  rewrite (Jsum_rot_expand K Kf _ R la ja Hja). apply fsum_map_ext. intros ia _.
+  rewrite (Jsum_rot_expand K Kf _ R lb jb Hjb), fsum_map_scale. apply fsum_map_ext. intros ib _. ring.
+Qed.
+
+Hypothesis Hapx : forall x : F, fapx K x = x.
+Hypothesis H2 : 1 + 1 <> 0.
+Hypothesis Hdf : forall c, dfnorm K c <> 0.
+
+(* the part of the primitive normalisation that does not depend on the component *)
+Definition gnorm (l : nat) (alpha : F) : F :=
+  pow34 K ((1 + 1) * alpha / fpi K) * fsqrt K (FNum.fpow K ((1 + 1 + 1 + 1) * alpha) l).
+
+Lemma dfnorm_norm_prim l c alpha : dfnorm K c * norm_prim K l c alpha = gnorm l alpha.
+Proof.
+  destruct c as [[ax ay] az]. pose proof (Hdf (ax, ay, az)) as Hc.
+  unfold norm_prim, dfnorm, gnorm in *. cbn [fst snd] in *. rewrite Hapx. field. exact Hc.
+Qed.
+
+(* the contraction with component-independent weights *)
+Definition W (sa sb : shell F) (ma mb : nat) (p : F -> F -> F) : F :=
+  fsum (mk (length (s_exps sa)) (fun ka => fsum (mk (length (s_exps sb)) (fun kb =>
+    nth ma (nth ka (s_coeffs sa) []) 0 * nth mb (nth kb (s_coeffs sb) []) 0
+    * gnorm (s_l sa) (nth ka (s_exps sa) 0) * gnorm (s_l sb) (nth kb (s_exps sb) 0)
+    * p (nth ka (s_exps sa) 0) (nth kb (s_exps sb) 0))))).
+
+Lemma contracted_W sa sb ca cb ma mb p :
+  dfnorm K ca * dfnorm K cb * contracted K sa sb ca cb ma mb p = W sa sb ma mb p.
+Proof.
+  unfold contracted, W. rewrite (fsum_mk_scale_l K Kf). apply fsum_mk_ext; intros ka _.
+  rewrite (fsum_mk_scale_l K Kf). apply fsum_mk_ext; intros kb _.
+  rewrite <- (dfnorm_norm_prim (s_l sa) ca), <- (dfnorm_norm_prim (s_l sb) cb). ring.
+Qed.
+Lemma W_ext sa sb ma mb p q :
+  (forall alpha beta, In alpha (s_exps sa) -> In beta (s_exps sb) -> p alpha beta = q alpha beta) ->
+  W sa sb ma mb p = W sa sb ma mb q.
+Proof.
+  intros H. unfold W. apply fsum_mk_ext; intros ka Hka. apply fsum_mk_ext; intros kb Hkb.
+  rewrite H by (apply nth_In; assumption). reflexivity.
+Qed.
+Lemma W_add sa sb ma mb p q :
+  W sa sb ma mb (fun x y => p x y + q x y) = W sa sb ma mb p + W sa sb ma mb q.
+Proof.
+  unfold W. rewrite (fsum_mk_add K Kf). apply fsum_mk_ext; intros ka _.
+  rewrite (fsum_mk_add K Kf). apply fsum_mk_ext; intros kb _. ring.
+Qed.
+Lemma W_scale sa sb ma mb c p : W sa sb ma mb (fun x y => c * p x y) = c * W sa sb ma mb p.
+Proof.
+  unfold W. rewrite (fsum_mk_scale_l K Kf). apply fsum_mk_ext; intros ka _.
+  rewrite (fsum_mk_scale_l K Kf). apply fsum_mk_ext; intros kb _. ring.
+Qed.
+Lemma W_zero sa sb ma mb : W sa sb ma mb (fun _ _ => 0) = 0.
+Proof.
+  unfold W. transitivity (fsum (mk (length (s_exps sa)) (fun _ => 0))); [|apply (fsum_mk_zero K Kf)].
+  apply fsum_mk_ext; intros ka _.
+  transitivity (fsum (mk (length (s_exps sb)) (fun _ => 0))); [|apply (fsum_mk_zero K Kf)].
+  apply fsum_mk_ext; intros kb _. ring.
+Qed.
+Lemma W_fsum sa sb ma mb n (c : nat -> F) (p : nat -> F -> F -> F) :
+  W sa sb ma mb (fun x y => fsum (mk n (fun i => c i * p i x y)))
+  = fsum (mk n (fun i => c i * W sa sb ma mb (p i))).
+Proof.
+  induction n as [|n IH].
+  - rewrite (fsum_mk_0 K). apply W_zero.
+  - rewrite (fsum_mk_S K Kf), <- IH, <- W_scale, <- W_add. apply W_ext. intros x y _ _.
+    apply (fsum_mk_S K Kf).
+Qed.
+
+Theorem overlap_block_rotation_law :
+  forall R, orthogonal K R -> forall la lb, exists Ma Mb : comp -> comp -> F,
+    mono_rep K R la Ma /\ mono_rep K R lb Mb /\
+    forall sa sb, s_l sa = la -> s_l sb = lb -> s_comps sa = [] -> s_comps sb = [] ->
+      wf_coeffs sa -> wf_coeffs sb ->
+      (forall a b, In a (s_exps sa) -> In b (s_exps sb) -> a + b <> 0) ->
+      forall ma mb ja jb, (ma < nseg sa)%nat -> (mb < nseg sb)%nat ->
+        (ja < length (default_comps la))%nat -> (jb < length (default_comps lb))%nat ->
+        let cmp l i := nth i (default_comps l) (0, 0, 0)%nat in
+        dfnorm K (cmp la ja) * dfnorm K (cmp lb jb)
+          * nth jb (nth mb (nth ja (nth ma (overlap_block K sa sb) []) []) []) 0
+        = FNum.fsum K (map (fun ia => FNum.fsum K (map (fun ib =>
+            Ma (cmp la ia) (cmp la ja) * Mb (cmp lb ib) (cmp lb jb)
+            * dfnorm K (cmp la ia) * dfnorm K (cmp lb ib)
+            * nth ib (nth mb (nth ia (nth ma
+                 (overlap_block K (rot_shell K R sa) (rot_shell K R sb)) []) []) []) 0)
+            (seq 0 (length (default_comps lb))))) (seq 0 (length (default_comps la)))).
+Proof.
+  intros R HO la lb. exists (rep_mat K R), (rep_mat K R).
+  split; [apply (rep_mat_mono_rep K Kf)|]. split; [apply (rep_mat_mono_rep K Kf)|].
+  intros sa sb Hla Hlb Hca Hcb Wa Wb Hex ma mb ja jb Hma Hmb Hja Hjb cmp.
+  set (sa' := rot_shell K R sa). set (sb' := rot_shell K R sb).
+  assert (WSa : wf_shell sa) by (now apply wf_shell_default).
+  assert (WSb : wf_shell sb) by (now apply wf_shell_default).
+  assert (WSa' : wf_shell sa') by (apply wf_shell_default; [exact Hca|exact Wa]).
+  assert (WSb' : wf_shell sb') by (apply wf_shell_default; [exact Hcb|exact Wb]).
+  assert (He : exps_ok K sa sb) by (intros a b Ha Hb; unfold psum; now apply Hex).
+  assert (He' : exps_ok K sa' sb') by exact He.
+  assert (Ca : comps_of sa = default_comps la) by (unfold comps_of; now rewrite Hca, Hla).
+  assert (Cb : comps_of sb = default_comps lb) by (unfold comps_of; now rewrite Hcb, Hlb).
+  assert (Ca' : comps_of sa' = default_comps la) by exact Ca.
+  assert (Cb' : comps_of sb' = default_comps lb) by exact Cb.
+  (* left-hand side *)
+  change (nth jb (nth mb (nth ja (nth ma (overlap_block K sa sb) []) []) []) 0)
+    with (nth4 K ma ja mb jb (overlap_block K sa sb)).
+  rewrite (overlap_block_correct K Kf Hapx H2 sa sb ma ja mb jb WSa WSb He Hma)
+    by (rewrite ?Ca, ?Cb; assumption).
+  rewrite Ca, Cb. fold (cmp la ja) (cmp lb jb).
+  transitivity (W sa sb ma mb (ovl_prim K sa sb (cmp la ja) (cmp lb jb)));
+    [rewrite <- (contracted_W sa sb (cmp la ja) (cmp lb jb)); ring|].
+  (* right-hand side *)
+  symmetry.
+  transitivity (fsum (mk (length (default_comps la)) (fun ia => rep_mat K R (cmp la ia) (cmp la ja) *
+     W sa sb ma mb (fun x y => fsum (mk (length (default_comps lb)) (fun ib =>
+        rep_mat K R (cmp lb ib) (cmp lb jb) * ovl_prim K sa' sb' (cmp la ia) (cmp lb ib) x y)))))).
+  { apply fsum_mk_ext. intros ia Hia. rewrite W_fsum, (fsum_mk_scale_l K Kf).
+    apply fsum_mk_ext. intros ib Hib.
+    change (nth ib (nth mb (nth ia (nth ma (overlap_block K sa' sb') []) []) []) 0)
+      with (nth4 K ma ia mb ib (overlap_block K sa' sb')).
+    rewrite (overlap_block_correct K Kf Hapx H2 sa' sb' ma ia mb ib WSa' WSb' He' Hma)
+      by (rewrite ?Ca', ?Cb'; assumption).
+    rewrite Ca', Cb'. fold (cmp la ia) (cmp lb ib).
+    change (W sa sb ma mb) with (W sa' sb' ma mb).
+    rewrite <- (contracted_W sa' sb' (cmp la ia) (cmp lb ib)).
+    change (fun x y : F => ovl_prim K sa' sb' (cmp la ia) (cmp lb ib) x y)
+      with (ovl_prim K sa' sb' (cmp la ia) (cmp lb ib)). ring. }
+  rewrite <- W_fsum. apply W_ext. intros alpha beta Ha Hb.
+  rewrite <- (overlap_prim_rotation_matrix R la lb sa sb (cmp la ja) (cmp lb jb) alpha beta HO)
+    by (try apply nth_In; try assumption; unfold psum; now apply Hex).
+  rewrite (map_as_mk _ (default_comps la) (0, 0, 0)%nat). apply fsum_mk_ext. intros ia _.
+  fold (cmp la ia). rewrite (map_as_mk _ (default_comps lb) (0, 0, 0)%nat), (fsum_mk_scale_l K Kf).
+  apply fsum_mk_ext. intros ib _. fold (cmp lb ib). subst sa' sb'. ring.
+Qed.
+
+End Block.
+
+(* ------------------------------------------------------------------ *)
+(* Examples over Qc.  The transcendental closures are stand-ins (sqrt = exp = 1, which satisfy every hypothesis);
+   the theorem assumes nothing else about them. *)
+From Coq Require Import ZArith QArith Qcanon.
+Section Examples.
+Let KQ : Fops Qc := QcK true (Q2Qc 3) (fun _ => Q2Qc 1) (fun _ => Q2Qc 1) (fun x => x) (fun _ x => x).
+Let KQf : is_field KQ := QcK_field _ _ _ _ _ _.
+Let q (n : Z) (d : positive) : Qc := qc_of n d.
+Definition exP : shell Qc :=
+  mkShell Qc 1 (q 1 2) (q (-1) 1) (q 2 1) [q 3 2; q 1 4] [[q 1 1; q 2 1]; [q (-1) 3; q 1 2]] false [] [].
+Definition exD : shell Qc :=
+  mkShell Qc 2 (q 0 1) (q 1 3) (q (-1) 1) [q 2 3] [[q 5 7]] false [] [].
+
+Lemma KQ_hyps :
+  (forall x y, fexp KQ (fadd KQ x y) = fmul KQ (fexp KQ x) (fexp KQ y)) /\ (forall x, fapx KQ x = x)
+  /\ fadd KQ (f1 KQ) (f1 KQ) <> f0 KQ /\ (forall c, dfnorm KQ c <> f0 KQ).
+Proof.
+  split; [intros; apply Qc_is_canon; vm_compute; reflexivity|]. split; [reflexivity|].
+  split; intros; intro H; apply (f_equal this) in H; vm_compute in H; discriminate H.
+Qed.
+Lemma orthogonal_R345' : orthogonal KQ R345.
+Proof.
+  intros i j Hi Hj. destruct i as [|[|[|i]]]; try lia; destruct j as [|[|[|j]]]; try lia;
+    split; apply Qc_is_canon; vm_compute; reflexivity.
+Qed.
+
+(* the hypotheses of [overlap_block_rotation_law] hold for a contracted p shell (2 primitives, 2 segments) and a
+   d shell *)
+Example block_law_hypotheses_satisfiable :
+  orthogonal KQ R345 /\ wf_coeffs exP /\ wf_coeffs exD /\ s_comps exP = [] /\ s_comps exD = []
+  /\ (forall a b, In a (s_exps exP) -> In b (s_exps exD) -> fadd KQ a b <> f0 KQ).
+Proof.
+  split; [apply orthogonal_R345'|]. split; [reflexivity|]. split; [reflexivity|].
+  split; [reflexivity|]. split; [reflexivity|].
+  intros a b Ha Hb. cbn [exP exD s_exps In] in Ha, Hb.
+  destruct Ha as [<-|[<-|[]]]; destruct Hb as [<-|[]]; intro H; apply (f_equal this) in H;
+    vm_compute in H; discriminate H.
+Qed.
+
+(* the block law re-evaluated on the list-level model (vm_compute, independent of the proof): every segment pair and
+   every (p component, d component) *)
+Definition block_law_check (R : @mat3 Qc) (sa sb : shell Qc) (ma mb ja jb : nat) : bool :=
+  let la := s_l sa in let lb := s_l sb in
+  let cmp l i := nth i (default_comps l) (0, 0, 0)%nat in
+  let S := overlap_block KQ sa sb in
+  let S' := overlap_block KQ (rot_shell KQ R sa) (rot_shell KQ R sb) in
+  Qeq_bool
+    (fmul KQ (fmul KQ (dfnorm KQ (cmp la ja)) (dfnorm KQ (cmp lb jb)))
+       (nth jb (nth mb (nth ja (nth ma S []) []) []) (f0 KQ)))
+    (FNum.fsum KQ (map (fun ia => FNum.fsum KQ (map (fun ib =>
+        fmul KQ (fmul KQ (fmul KQ (fmul KQ (rep_mat KQ R (cmp la ia) (cmp la ja))
+                                           (rep_mat KQ R (cmp lb ib) (cmp lb jb)))
+                                  (dfnorm KQ (cmp la ia))) (dfnorm KQ (cmp lb ib)))
+          (nth ib (nth mb (nth ia (nth ma S' []) []) []) (f0 KQ)))
+        (seq 0 (length (default_comps lb))))) (seq 0 (length (default_comps la))))).
+Example block_law_computed :
+  forallb (fun R => forallb (fun ma => forallb (fun ja => forallb (fun jb =>
+     block_law_check R exP exD ma 0 ja jb) (seq 0 6)) (seq 0 3)) (seq 0 2)) [R345; Rimp] = true.
+Proof. vm_compute. reflexivity. Qed.
+End Examples.
+
+Lemma block_law_hypotheses_satisfiable_packed :
+  exists (F : Type) (K : Fops F) (R : @mat3 F) (sa sb : shell F),
+    is_field K /\ (forall x y, fexp K (fadd K x y) = fmul K (fexp K x) (fexp K y)) /\ (forall x, fapx K x = x)
+    /\ fadd K (f1 K) (f1 K) <> f0 K /\ (forall c, dfnorm K c <> f0 K)
+    /\ orthogonal K R /\ wf_coeffs sa /\ wf_coeffs sb /\ s_comps sa = [] /\ s_comps sb = []
+    /\ (forall a b, In a (s_exps sa) -> In b (s_exps sb) -> fadd K a b <> f0 K).
+Proof.
+  exists Qc, (QcK true (Q2Qc 3) (fun _ => Q2Qc 1) (fun _ => Q2Qc 1) (fun x => x) (fun _ x => x)), R345, exP, exD.
+  split; [apply QcK_field|]. destruct KQ_hyps as (A & B & C & D).
+  split; [exact A|]. split; [exact B|]. split; [exact C|]. split; [exact D|].
+  exact block_law_hypotheses_satisfiable.
+Qed.
